@@ -1314,6 +1314,23 @@ carquet_status_t parquet_write_file_metadata(
         return CARQUET_ERROR_INVALID_ARGUMENT;
     }
 
+    /* Do not write a footer this library's own parser refuses to read (the
+     * security limits above): the writer would report success for a file
+     * that then cannot be opened. */
+    if (metadata->num_schema_elements > CARQUET_MAX_SCHEMA_ELEMENTS ||
+        metadata->num_row_groups > CARQUET_MAX_ROW_GROUPS) {
+        CARQUET_SET_ERROR(error, CARQUET_ERROR_INVALID_ARGUMENT,
+            "Schema or row group count exceeds what the reader accepts");
+        return CARQUET_ERROR_INVALID_ARGUMENT;
+    }
+    for (int32_t i = 0; i < metadata->num_row_groups; i++) {
+        if (metadata->row_groups[i].num_columns > CARQUET_MAX_COLUMNS_PER_RG) {
+            CARQUET_SET_ERROR(error, CARQUET_ERROR_INVALID_ARGUMENT,
+                "Column count exceeds what the reader accepts");
+            return CARQUET_ERROR_INVALID_ARGUMENT;
+        }
+    }
+
     thrift_encoder_t enc;
     thrift_encoder_init(&enc, buffer);
 
